@@ -116,6 +116,21 @@ def concrete_sweep(module, name, spec, env=None, timeout=400):
     return {"error": "no verdict (rc=%s): %s" % (p.returncode, (p.stderr or "")[-800:]), "runs": 0, "bad": [], "n_bad": 0}
 
 
+def eval_in_harness(module, expr, env=None, timeout=300):
+    """evaluate a Python expression inside a harness module imported the way the workers import it (stubs installed,
+    zorg from $ZORG_SRC) and return its JSON value - for tables that only exist on the patched side"""
+    code = ("import importlib.util, json, sys\n"
+            "spec = importlib.util.spec_from_file_location('ev_harness', %r)\n"
+            "m = importlib.util.module_from_spec(spec); sys.modules['ev_harness'] = m; spec.loader.exec_module(m)\n"
+            "print('@@EV ' + json.dumps(eval(%r, m.__dict__)))\n") % (module, expr)
+    p = subprocess.run([PY, "-c", code], env=_env(env), capture_output=True, text=True, timeout=timeout,
+                       cwd=os.path.dirname(module))
+    for ln in p.stdout.splitlines():
+        if ln.startswith("@@EV "):
+            return json.loads(ln[5:])
+    raise RuntimeError("eval_in_harness(%s) failed: %s" % (expr, (p.stderr or "")[-800:]))
+
+
 def parse_call(call: str, module_globals: dict):
     """'f(1, b="x")' -> (args, kwargs), evaluated in the harness module's namespace."""
     k = call.find("(")
